@@ -33,7 +33,7 @@ pub fn int_range(t: &str) -> (i128, i128) {
     }
 }
 
-const NAMES: [&str; 8] = ["a", "b", "c", "item", "", "é", "key", "x y"];
+const NAMES: [&str; 10] = ["a", "b", "c", "item", "", "é", "key", "x y", "a_raw", "key_raw"];
 
 /// a random leaf data type
 pub fn gen_leaf_dt(r: &mut Rng) -> Value {
@@ -266,7 +266,48 @@ pub fn offenders() -> Vec<Value> {
         sval::f64v(1.5),
         sval::bytes(&[1, 2, 3, 4, 5]),
         sval::map(vec![(sval::int("i32", 1), sval::int("i32", 2))]),
+        // sequences that ANNOUNCE three elements (the size of the grid's FixedSizeBinary column) but carry two / four
+        json!({"k": "seq", "hint": 3, "v": [sval::int("u8", 1), sval::int("u8", 2)]}),
+        json!({"k": "tuple", "hint": 3, "v": [sval::int("u8", 1), sval::int("u8", 2), sval::int("u8", 3), sval::int("u8", 4)]}),
     ]
+}
+
+/// lying length hints: with probability 1/den per container node, announce another length than the node has (a
+/// `Serialize` impl may pass any `len` to serialize_seq / tuple / struct / map; the builders must not trust it)
+pub fn lie_hints(r: &mut Rng, v: &mut Value, den: u64) {
+    match v {
+        Value::Object(m) => {
+            let k = m.get("k").and_then(|k| k.as_str()).unwrap_or("").to_string();
+            let n = match k.as_str() {
+                "seq" | "tuple" | "tuple_struct" => m.get("v").and_then(|x| x.as_array()).map(|a| a.len()),
+                "struct" => m.get("f").and_then(|x| x.as_array()).map(|a| a.len()),
+                "map" => m.get("e").and_then(|x| x.as_array()).map(|a| a.len()),
+                _ => None,
+            };
+            if let Some(n) = n {
+                if r.chance(1, den) {
+                    let h = match r.below(6) {
+                        0 => json!(n + 1),
+                        1 => json!(n.saturating_sub(1)),
+                        2 => json!(0),
+                        3 if k == "seq" || k == "map" => Value::Null,
+                        4 => json!(r.usize(5)),            // a small constant, whatever the node holds
+                        _ => json!(n + 2 + r.usize(5)),
+                    };
+                    m.insert("hint".into(), h);
+                }
+            }
+            for (_, x) in m.iter_mut() {
+                lie_hints(r, x, den);
+            }
+        }
+        Value::Array(a) => {
+            for x in a.iter_mut() {
+                lie_hints(r, x, den);
+            }
+        }
+        _ => {}
+    }
 }
 
 /// a value of the wrong shape for (almost) any column
@@ -610,7 +651,7 @@ pub fn gen_record(r: &mut Rng, fields: &[Value], cfg: &ValCfg) -> Value {
         }
         _ => {
             let in_order = r.chance(2, 3);
-            let mut fs: Vec<(String, u64, Value)> = kv.iter().filter(|(_, _, a)| !a).map(|(k, v, _)| (k.clone(), r.below(3), v.clone())).collect();
+            let mut fs: Vec<(String, u64, Value)> = kv.iter().filter(|(_, _, a)| !a).map(|(k, v, _)| (k.clone(), r.below(4), v.clone())).collect();
             if r.chance(1, 4) {
                 let pos = r.usize(fs.len() + 1);
                 fs.insert(pos, ("extra".into(), 0, sval::string("ignored")));
@@ -756,7 +797,7 @@ pub fn rerender(r: &mut Rng, f: &Value, v: &Value) -> Value {
                                 Some(cf) => rerender(r, cf, &x[2]),
                                 None => x[2].clone(),
                             };
-                            (name, r.below(3), val)
+                            (name, r.below(4), val)
                         })
                         .collect();
                     r.shuffle(&mut fields);
@@ -814,8 +855,8 @@ pub fn rerender_record(r: &mut Rng, fields: &[Value], pairs: &[(String, Value)])
             let mut fs: Vec<(String, u64, Value)> = Vec::new();
             for (k, v, _) in &logical {
                 match v {
-                    Some(v) => fs.push((k.clone(), r.below(3), v.clone())),
-                    None if r.bool() => fs.push((k.clone(), r.below(3), sval::none())),
+                    Some(v) => fs.push((k.clone(), r.below(4), v.clone())),
+                    None if r.bool() => fs.push((k.clone(), r.below(4), sval::none())),
                     None => {}
                 }
             }
